@@ -416,3 +416,14 @@ def canon_text(src):
     from .normal import Canon
 
     return canon(Canon().visit(ast.parse(src, mode="eval")).body, _NoDefs())
+
+
+def found_or(ok, names, *mention):
+    """Three-valued answer of a recogniser that looks for a local defined as a given expression: True when found;
+    False when it is not found but some local's definition mentions the same table(s) (a deviating definition: wrong
+    index order, wrong table row, ...); None when nothing in the loop mentions them (the construction is written in a
+    way the recogniser does not read - a limit of the analysis, not a verdict)."""
+    if ok:
+        return True
+    texts = [ast.unparse(st.value if hasattr(st, "value") else st).replace(" ", "") for st in (names.values() if isinstance(names, dict) else names)]
+    return False if any(all(m.replace(" ", "") in t for m in mention) for t in texts) else None
